@@ -239,6 +239,77 @@ def ce_timeout_from_established(node_mod):
     return None
 
 
+def addr_guard(avp_mod):
+    """`AvpAddress.value` (the getter): every statement that touches the payload (`struct.unpack`, `inet_ntop`, `decode`)
+    sits inside one `try` whose handler names `struct.error` and `ValueError` and raises `AvpDecodeError`."""
+    fn = _fn(avp_mod.AvpAddress.value.fget)
+    body = [st for st in fn.body if not (isinstance(st, ast.Expr) and isinstance(st.value, ast.Constant))]
+    touching = ("unpack", "inet_ntop", "decode", "hex")
+    outside = [st for st in body if not isinstance(st, ast.Try) and any(_calls(st, a) for a in touching)]
+    tries = [st for st in body if isinstance(st, ast.Try) and _calls(st, "unpack")]
+    if not tries:
+        return False if outside else None
+    if outside or len(tries) != 1:
+        return None
+    t = tries[0]
+    for h in t.handlers:
+        nm = _names(h.type) if h.type is not None else set()
+        raises = [r for r in ast.walk(h) if isinstance(r, ast.Raise) and r.exc is not None and "AvpDecodeError" in _names(r.exc)]
+        if {"error", "ValueError"} <= nm and raises:
+            return True
+    return False
+
+
+def _reader_handler(peer_mod):
+    """the `except Exception` handler of the frame loop inside `PeerConnection.work_read_queue`, and that loop"""
+    fn = _fn(peer_mod.PeerConnection.work_read_queue)
+    for loop in ast.walk(fn):
+        if isinstance(loop, ast.While) and "resume_waiting" in _names(loop.test):
+            for st in loop.body:
+                if isinstance(st, ast.Try) and _calls(st, "from_bytes"):
+                    for h in st.handlers:
+                        if h.type is not None and "Exception" in _names(h.type):
+                            return loop, st, h
+    return None, None, None
+
+
+def frame_skip_zero_guard(peer_mod):
+    """the handler's first statement decides "discard this frame" by a test that (besides comparing the buffer length
+    with the header's length field) requires the length field to be greater than zero"""
+    loop, tr, h = _reader_handler(peer_mod)
+    if h is None or not h.body or not isinstance(h.body[0], ast.If):
+        return None
+    test = h.body[0].test
+    nm = _names(test)
+    if not {"msg_header", "length", "_read_buffer"} <= nm:
+        return None
+    for c in ast.walk(test):
+        if isinstance(c, ast.Compare) and len(c.ops) == 1 and isinstance(c.left, ast.Attribute) and c.left.attr == "length":
+            r = c.comparators[0]
+            if isinstance(c.ops[0], ast.Gt) and isinstance(r, ast.Constant) and r.value == 0:
+                return True
+            if isinstance(c.ops[0], ast.GtE) and isinstance(r, ast.Constant) and r.value == 1:
+                return True
+    return False
+
+
+def frame_fall_through(peer_mod):
+    """the "discard this frame" branch of the handler does not `continue`: control reaches the statement after the
+    `try`, and the loop body ends with the "fewer than 20 octets left: wait" test (`0 < len(buffer) < 20`)"""
+    loop, tr, h = _reader_handler(peer_mod)
+    if h is None or not h.body or not isinstance(h.body[0], ast.If):
+        return None
+    discard = h.body[0].body
+    last = loop.body[-1]
+    tail_ok = (isinstance(last, ast.If) and {"_read_buffer", "len"} <= _names(last.test) and
+               any(isinstance(c, ast.Constant) and c.value == 20 for c in ast.walk(last.test)) and
+               any(isinstance(a, ast.Assign) and "resume_waiting" in _names(a) for a in last.body))
+    if not tail_ok:
+        return None
+    jumps = [x for st in discard for x in ast.walk(st) if isinstance(x, (ast.Continue, ast.Break, ast.Return))]
+    return not jumps
+
+
 def extract() -> dict:
     import diameter.node.node as node_mod
     import diameter.node.peer as peer_mod
@@ -256,6 +327,13 @@ def extract() -> dict:
     for key, f, arg in (("decodeKeepsFlags", decode_keeps_flags, msg_mod), ("answerKeepsP", answer_keeps_p, msg_mod),
                         ("connectFailCloses", connect_fail_closes, node_mod),
                         ("ceTimeoutFromEstablished", ce_timeout_from_established, node_mod)):
+        try:
+            out[key] = f(arg)
+        except Exception:  # noqa
+            out[key] = None
+    import diameter.message.avp.avp as avp_mod
+    for key, f, arg in (("addrGuard", addr_guard, avp_mod), ("frameSkipZeroGuard", frame_skip_zero_guard, peer_mod),
+                        ("frameFallThrough", frame_fall_through, peer_mod)):
         try:
             out[key] = f(arg)
         except Exception:  # noqa
